@@ -28,9 +28,9 @@ META = {
         "ptera.transform.TransformSet.transform_for/_register", "ptera.selector.Call.wrap_functions",
     ],
     "bounds": {
-        "quick": {"history_length": "<= 5 operations over 7 kinds", "call_arguments": "base + i, base an unbounded Int",
+        "quick": {"history_length": "<= 5 operations over 7 kinds; <= 4 over {toggle p0, 3 refused activations, 2 calls}", "call_arguments": "base + i, base an unbounded Int",
                   "inductive_step": "multiplicities unbounded (z3 Int >= 0), 3-capture universe, 8 subsets, push and pop"},
-        "thorough": {"history_length": "<= 6", "call_arguments": "as quick", "inductive_step": "as quick"},
+        "thorough": {"history_length": "<= 6; <= 5 with refused activations", "call_arguments": "as quick", "inductive_step": "as quick"},
     },
     "out_of_scope": ["more than three probes / two functions", "with-blocks that are not properly nested among themselves "
                      "(Python cannot express them)", "threads (C08)", "generators (C09)"],
@@ -50,6 +50,9 @@ def fb(v):
 '''
 TMPL = {"name": "c05", "src": SRC, "funcs": ["fa"], "twin_funcs": ["fa", "fb"], "gen": False}
 SELECTORS = ["fa > x", "fa(x) > y", "fb > fa > x"]
+# activations that must be refused: missing variable; missing variable at the end of a path (the outer function is fine);
+# a probe whose first selector is fine and whose second is not
+REFUSED = [["fa > nosuch"], ["fb > fa > nosuch"], ["fa > x", "fb(z) > nosuch"]]
 
 
 def expected_events(pidx, op, v):
@@ -67,7 +70,7 @@ def build(case):
     from ptera.overlay import HandlerCollection
     from crosshair.tracers import NoTracing
     from ptera.probe import global_probes
-    from ptera.selector import select
+    from ptera.selector import SelectorError, select
     from pv.corpus.base import load
     from pv.engine.xsym import assume, pick, require
 
@@ -77,6 +80,7 @@ def build(case):
     if p["kind"] == "history":
         first = p.get("first")  # shard: values of the first two operations
         second = p.get("second")
+        alphabet = p.get("alphabet") or list(range(8))
 
         def run(base, ops):
             ns, _ = load(TMPL)
@@ -118,7 +122,7 @@ def build(case):
             try:
                 quiescent("start")
                 for step, opsym in enumerate(ops):
-                    op = pick(opsym, 8)
+                    op = alphabet[pick(opsym, len(alphabet))]
                     if step == 0 and first is not None:
                         assume(op == first)
                     if step == 1 and second is not None:
@@ -138,6 +142,32 @@ def build(case):
                     elif op in (3, 4):
                         assume(probes[2] is not None)
                         deactivate(2, exc=(op == 4))
+                    elif op in (8, 9, 10):
+                        # an activation that must be refused: it is not an activation, so nothing may change
+                        def counts():
+                            return [(getattr(fn, "__ptera_stack__", None) and fn.__ptera_stack__.instrument_count) or 0
+                                    for fn in (fa, fb)]
+                        with NoTracing():
+                            c0, codes0 = counts(), (fa.__code__, fb.__code__)
+                            try:
+                                bad = probing(*[select(t, env=ns) for t in REFUSED[op - 8]])
+                                bad.__enter__()
+                                outcome = "activated"
+                                bad.__exit__(None, None, None)
+                            except (SelectorError, TypeError):
+                                outcome = "refused"
+                            except Exception as e:  # noqa
+                                outcome = type(e).__name__
+                            c1, codes1 = counts(), (fa.__code__, fb.__code__)
+                        if not twin:
+                            require(outcome == "refused", f"activation of {REFUSED[op - 8]} was not refused: {outcome}",
+                                    {"fp": f"C05:history:refusal:{outcome}"})
+                            # (which code variant serves the probes that remain active is not fixed by the property; that
+                            # they keep receiving their events, and that the original code is back when none is active, is
+                            # checked by the following steps and by quiescent())
+                            require(c0 == c1 and (c0 != [0, 0] or (codes0[0] is codes1[0] and codes0[1] is codes1[1])),
+                                    "a refused activation changed the instrumentation of a function "
+                                    f"(counts {c0} -> {c1})", {"fp": "C05:history:refusal-leaves-tooling", "selectors": REFUSED[op - 8]})
                     else:
                         v = base + step
                         rv = (fa if op == 5 else fb)(v)
@@ -151,7 +181,7 @@ def build(case):
                         new = lists[i][before[i]:]
                         if twin:
                             continue
-                        if probes[i] is None and op >= 5:
+                        if probes[i] is None and op in (5, 6):
                             require(len(new) == 0, "a probe that is not active received an event",
                                     {"fp": "C05:history:inactive-received"})
                         else:
@@ -257,6 +287,11 @@ def cases(tier, seed):
                 continue  # leaving a with-probe that is not open / entering it twice: not a history
             cs.append({"id": f"history:ops={first},{second}", "params": {"kind": "history", "n": n, "first": first, "second": second},
                        "budget_s": 5000 if th else 280, "per_path_s": 30})
+    # histories with refused activation attempts (ops 8-10) between toggles of p0 and calls
+    alpha = [0, 8, 9, 10, 5, 6, 7]
+    for first in (0, 8, 9, 10, 5, 6):
+        cs.append({"id": f"refusal:first={first}", "params": {"kind": "history", "n": 5 if th else 4, "first": first, "alphabet": alpha},
+                   "budget_s": 3000 if th else 280, "per_path_s": 30})
     cs.append({"id": "history:twin", "params": {"kind": "history", "n": 5, "first": 0}, "vacuity_twin": True,
                "stop_on_refute": True, "budget_s": 100})
     cs.append({"id": "inductive", "params": {"kind": "inductive"}, "budget_s": 1200 if th else 280})
